@@ -13,9 +13,29 @@ Definition scalar_kind (k : kind) : bool :=
   | _ => false
   end.
 
-(* a resolved field of the fragment: no options, a direct offset to a physical field of that type *)
+(* a resolved field of the fragment: a direct offset to a physical field of that type; options: none, or omitempty on a
+   bool / integer / string / pointer / slice field (floats: known finding KF-C03-negzero-omitempty), or `,string` on a scalar field *)
+Definition omittable (t : ty) : bool :=
+  match t with
+  | TPrim (KFloat32 | KFloat64) => false
+  | TPrim k => scalar_kind k
+  | TPtr _ | TSlice _ => true
+  | _ => false
+  end.
+Definition quotable (t : ty) : bool := match t with TPrim k => scalar_kind k | _ => false end.
+
+Definition opts_ok (f : field) : Prop :=
+  f_opts f = 0 \/ (f_opts f = 1 /\ omittable (f_type f) = true) \/ (f_opts f = 2 /\ quotable (f_type f) = true).
+
 Definition field_ok (ph : list (N * ty)) (f : field) : Prop :=
-  exists o, f_path f = [(o, false)] /\ f_opts f = 0 /\ In (o, f_type f) ph.
+  exists o, f_path f = [(o, false)] /\ opts_ok f /\ In (o, f_type f) ph.
+
+Lemma opts_ok_bits : forall f, opts_ok f ->
+  F_omitzero f = false /\ (F_omitempty f = true -> omittable (f_type f) = true /\ F_stringize f = false) /\
+  (F_stringize f = true -> quotable (f_type f) = true /\ F_omitempty f = false).
+Proof.
+  intros f [H|[[H Ho]|[H Hq]]]; unfold F_omitzero, F_omitempty, F_stringize; rewrite H; cbn; repeat split; auto; discriminate.
+Qed.
 
 Section FragDef.
   Variable e : env.
